@@ -102,6 +102,7 @@ func init() {
 		run: func(p *Program, rep *Report, tier string) {
 			g(rep, "EVENT-SIZE-SOURCE", func() { ruleEVENTSIZESOURCE(p, rep) })
 			g(rep, "PER-EVENT-STATE", func() { rulePEREVENTSTATE(p, rep) })
+			g(rep, "PAGES-COUNT", func() { rulePAGESCOUNT(p, rep) })
 			g(rep, "EVENT-BOUNDARY", func() { ruleEVENTBOUNDARY(p, rep) })
 			g(rep, "TAIL-OFFSET", func() { ruleTAILOFFSET(p, rep) })
 			g(rep, "POSITION-COHERENT", func() { rulePOSITIONCOHERENT(p, rep) })
